@@ -197,3 +197,13 @@ def _double_harness(op, route):
         return {"check": "c01.double_op", "args": enc({"op": op, "route": route, "x": vals["x"], "y": vals.get("y", 0.0)})}
 
     return Harness(id=f"C01/double/{op}@{route}", vars=vars, pre=[], run=run, witness=witness, timeout_ms=20000)
+
+MANIFEST = {
+    "text": "Bounded-exhaustive symbolic execution: for every path of the real operator code (celtypes dunders, int64/uint64 decorators, "
+            "Evaluator/transpiled code, result()) z3 proves path-condition => exact-result-or-error over ALL int64/uint64 pairs and all binary64 pairs; "
+            "no operand sampling. Right level because the property is a for-all over operand pairs of a loop-free kernel.",
+    "note": "Trusted: z3 FP/LIA theories, CPython on concrete values, the SInt/SFloat shadows (fidelity self-check runs the repo's tests under shadow loading; "
+            "each fully discharged path is cross-validated on the un-shadowed code). double % and mixed-type operands are outside the statement.",
+    "technique": "symbolic execution of the real Python byte-code with shadow builtins + z3 (SMT: LIA, FloatingPoint); counterexample replay",
+    "design_ref": "DESIGN.md §2, §7 C01",
+}
